@@ -5,4 +5,5 @@ HERE="$(cd "$(dirname "$0")" && pwd)"
 export CARGO_NET_OFFLINE=true
 cd "$HERE/harness"
 cargo build --release --offline --target-dir target 2>&1 | tail -3
+cargo build --release --offline --features mt --target-dir target-mt 2>&1 | tail -3
 echo "setup done"
